@@ -30,7 +30,7 @@ ASSUMPTIONS = ['the reference release (mpmath 1.3.0) at 4*prec+100 bits evaluate
 LEVEL_TEXT = ('exploration: ~2.5*10^3 (quick) / ~2.5*10^4 (thorough) inversions on the real code, each compared with the closed-form inverse')
 LEVEL_NOTE = 'transform pairs, times and precisions not generated are not covered; the oracle is the reference release at high precision'
 TECHNIQUE = 'runtime result monitor: closed-form reference for every returned inverse transform value'
-SHARD_TIMEOUT = {'quick': 500, 'thorough': 3000}
+SHARD_TIMEOUT = {'quick': 1800, 'thorough': 7200}
 
 NSHARDS = 16
 COUNTS = {'quick': 160, 'thorough': 1600}
